@@ -15,7 +15,7 @@ MOD = 'checks.c17'
 SHRINK_FIELDS = ['ro_xml', 'msg_xml']
 RULE = (
     "Cases: (a) Hypothesis stories with any interleaving of paragraphs (plain, empty, "
-    "whitespace-only, '(...)', '<...>', half-bracketed, padded, '()', ')(', '(a)(b)', Unicode, "
+    "whitespace-only, '(...)', '<...>', half-bracketed, mixed brackets '(...>' / '<...)', padded, '()', ')(', '(a)(b)', Unicode, "
     "multi-line, random XML-legal text), items and other elements, 1-5 stories per running order; "
     "(b) Hypothesis single steps and histories (states reached by merges, notably roStorySend bodies "
     "whose storyItem children become items).  Paragraphs with inline child elements are excluded by "
@@ -27,7 +27,7 @@ RULE = (
     "bracketed) present.")
 ASSUMPTIONS = ['<p> elements have no child elements (stated exclusion)']
 MANDATORY = ['filtered:empty', 'filtered:whitespace', 'filtered:round', 'filtered:angle',
-             'kept:half-bracketed', 'items-interleaved', 'post-merge:StorySend', 'pristine']
+             'kept:half-bracketed', 'kept:mixed-brackets', 'items-interleaved', 'post-merge:StorySend', 'pristine']
 
 
 def check(ro):
@@ -105,6 +105,8 @@ def _classes(ro_xml):
                     cl.add('filtered:round')
                 elif s.startswith('<') and s.endswith('>'):
                     cl.add('filtered:angle')
+                elif s[0] in '(<' and s[-1] in ')>':
+                    cl.add('kept:mixed-brackets')
                 elif s[0] in '(<' or s[-1] in ')>':
                     cl.add('kept:half-bracketed')
     return sorted(cl), len(xs)
